@@ -12,8 +12,9 @@ from . import overlay, verus
 from .overlay import Undecided
 
 VERIF = verus.VERIF
-EVIDENCE = os.path.join(VERIF, 'evidence')
-REPLAYS = os.path.join(VERIF, 'replays')
+# runs against a scratch tree (seeded changes, mutation experiments) must not overwrite the evidence of the real tree
+EVIDENCE = os.environ.get('YQV_EVIDENCE') or os.path.join(VERIF, 'evidence')
+REPLAYS = os.environ.get('YQV_REPLAYS') or os.path.join(VERIF, 'replays')
 KNOWN = os.path.join(VERIF, 'known_findings.jsonl')
 ALLOW = os.path.join(VERIF, 'trusted_allow.json')
 PROPMAP = os.path.join(VERIF, 'propmap.json')
